@@ -158,6 +158,56 @@ theorem C36_ctx_safe (c : Chain) (s : Str) : c.safe (c.apply s) = true := by
 /-- as evaluated by the driver -/
 theorem C36_checkP (c : Chain) (s : Str) : checkP c (c.apply s) = true := C36_ctx_safe c s
 
+/-! ### rendered as the *same* text -/
+
+/-- **fidelity of HTML text, `<title>` and quoted attributes**: for every value without a NUL byte (valid UTF-8 or not),
+    decoding the character references of what the page contains — what a browser does — gives back exactly the value:
+    the page shows the value as text, nothing more and nothing less -/
+theorem html_text_roundtrip (s : Str) (h0 : ∀ b ∈ s, b ≠ 0) : unescapeRefs (htmlEscape s) = s := by
+  unfold htmlEscape htmlReplacer
+  exact unescape_htmlEscape_loop s.length s (Nat.le_refl _) h0
+
+/-! ### rendering never fails: the slice expressions of formatResults -/
+
+theorem cutFrags_wf (n : Nat) : ∀ (frags : List Frag) (lastEnd : Int), 0 ≤ lastEnd → fragsWF n lastEnd frags = true →
+    ∃ ps, cutFrags n lastEnd frags = some ps ∧ ps.length = frags.length ∧ tiles n lastEnd.toNat ps = true := by
+  intro frags
+  induction frags with
+  | nil => intro le _ _; exact ⟨[], rfl, rfl, rfl⟩
+  | cons f rest ih =>
+    intro le hle hwf
+    simp only [fragsWF, Bool.and_eq_true, decide_eq_true_eq] at hwf
+    obtain ⟨⟨⟨h1, h2⟩, h3⟩, h4⟩ := hwf
+    obtain ⟨ps, hps, hlen, htile⟩ := ih (f.off + f.len) (by omega) h4
+    have hs1 : sliceOk n le f.off = true := by simp [sliceOk]; omega
+    have hs2 : sliceOk n f.off (f.off + f.len) = true := by simp [sliceOk]; omega
+    refine ⟨⟨le.toNat, f.off.toNat, (f.off + f.len).toNat, if rest.isEmpty then n else (f.off + f.len).toNat⟩ :: ps, ?_, ?_, ?_⟩
+    · simp [cutFrags, hs1, hs2, hps]
+    · simp [hlen]
+    · cases rest with
+      | nil =>
+        have : ps = [] := List.eq_nil_of_length_eq_zero (by simpa using hlen)
+        subst this
+        simp [tiles]; omega
+      | cons g r =>
+        cases ps with
+        | nil => simp at hlen
+        | cons q qs =>
+          simp [tiles, htile]; omega
+
+/-- **formatResults never panics on a search result whose fragments are sorted, disjoint and inside the line** (what the
+    searcher guarantees, property C02), and the `Pre`/`Match`/`Post` pieces it produces tile the line exactly -/
+theorem format_never_fails (n : Nat) (frags : List Frag) : checkFormat n frags (formatLine n frags) = true := by
+  unfold checkFormat
+  by_cases hwf : fragsWF n 0 frags = true
+  · obtain ⟨ps, hps, hlen, htile⟩ := cutFrags_wf n frags 0 (by omega) hwf
+    simp [formatLine, hps, hlen, hwf]
+    simpa using htile
+  · simp [hwf]
+
+/-- and it does panic when a fragment reaches beyond the line (the guarantee is needed) -/
+example : formatLine 5 [⟨1, 2⟩, ⟨2, 9⟩] = none ∧ formatLine 5 [⟨1, 2⟩, ⟨3, 2⟩] = some [⟨0, 1, 3, 3⟩, ⟨3, 3, 5, 5⟩] := by decide
+
 /-- the model's rune loop is not cut short by its fuel: any larger fuel gives the same result -/
 theorem model_loop_total (repl : Nat → Option Str) (s : Str) (k : Nat) :
     runeLoop repl (s.length + k) s = runeLoop repl s.length s := by
